@@ -558,3 +558,4 @@ EXPLANATION += (" Order analysis: reasons that only say 'cannot classify' are un
 EXPLANATION += (' Round 6: ' + 'ORD/ties/silence-previous-note: the silence in front of a note is not measured from the end of the one preceding note in a stable sort keyed by start_time only.')
 EXPLANATION += (' Rounds 9-10: ' + "ORD/stored-prefix (takewhile / dropwhile over storage order); a positional read whose index walks the list's own positions and the result of a same-module helper over storage-ordered data are cannot-classify.")
 EXPLANATION += (' Round 11: ' + 'ORD/assumes-sorted (heapq.merge / bisect over storage order); ORD/one-key-per-state-table.')
+EXPLANATION += (' Round 12: ' + 'a grouped sort key (instrument, time, ...) is cannot-classify.')
